@@ -23,8 +23,9 @@ OBS_KEYS = ['agent_id_grid', 'grid', 'item']
 def check_in_space(ctx, what, space_dict, arrays, keys):
     """key by key: declared Space.contains, our own shape/dtype/bounds check, and the gym Box/Dict"""
     sig = {'kind': 'out_of_space'}
-    if sorted(arrays) != keys or sorted(space_dict) != keys:
-        ctx.fail(f'{what}: keys {sorted(arrays)} / space keys {sorted(space_dict)} != {keys}', sig)
+    if sorted(arrays) != sorted(space_dict) or not set(keys) <= set(arrays):
+        ctx.fail(f'{what}: converted keys {sorted(arrays)} do not match the declared space keys {sorted(space_dict)} (documented keys {keys})', sig)
+    keys = sorted(arrays)
     gspace = outer_space_to_gym_space(space_dict)
     for k in keys:
         a, sp = arrays[k], space_dict[k]
